@@ -48,7 +48,7 @@ def step_of(last):
     a = last['a']
     if a == 'Apply':
         return {'a': 'Apply', 'o': conv(last['o'])}
-    return {'a': a}
+    return {'a': a}     # Replay / Catchup: the driver takes the operation from its own log
 
 
 def from_graph(g, first_id):
@@ -63,23 +63,72 @@ def from_graph(g, first_id):
             if dst not in cache:
                 cache[dst] = step_of(core.tlaval.state_var(g['nodes'][dst], 'last'))
             steps.append(cache[dst])
-        out.append({'id': first_id + len(out), 'cfg': {'groups': GROUPS}, 'steps': complete(steps)})
+        out.append({'id': first_id + len(out), 'cfg': {'groups': GROUPS}, 'steps': complete(steps), '_edges': list(p)})
     return out, covered, total
 
 
 def complete(steps):
-    """a behaviour that stops in the middle of a recovery is continued to the end of it"""
+    """a behaviour that stops in the middle of a recovery / catch-up is continued to the end of it"""
     mode = 'live'
     for s in steps:
         if s['a'] == 'Restart':
             mode = 'rec'
-        elif s['a'] in ('Finish', 'GoLive'):
+        elif s['a'] == 'Install':
+            mode = 'cu'
+        elif s['a'] in ('Finish', 'GoLive', 'CaughtUp'):
             mode = 'live'
+    # the driver skips what does not apply: Restore when there is no snapshot, Replay / Catchup beyond the log,
+    # Finish when nothing was replayed
     if mode == 'rec':
-        # the driver skips what does not apply: Restore when there is no snapshot,
-        # Replay beyond the log, Finish when nothing was replayed
         steps = steps + [{'a': 'Restore'}] + [{'a': 'Replay'}] * 12 + [{'a': 'Finish'}, {'a': 'GoLive'}]
+    elif mode == 'cu':
+        steps = steps + [{'a': 'Catchup'}] * 12 + [{'a': 'CaughtUp'}]
     return steps
+
+
+def canon(b):
+    """symmetry class of a behaviour: stream, group, consumer and non-leader broker names replaced by their order of
+    first appearance, partition counts dropped"""
+    m = {}
+
+    def nm(kind, x):
+        k = (kind, x)
+        if k not in m:
+            m[k] = '%s%d' % (kind, sum(1 for q in m if q[0] == kind))
+        return m[k]
+    out = []
+    for s in b['steps']:
+        if s['a'] != 'Apply':
+            out.append(s['a'])
+            continue
+        o = s['o']
+        r = [o['op']]
+        for k in ('s', 'g'):
+            if k in o:
+                r.append(nm(k, o[k]))
+        if o['op'] != 'CreateStream':
+            for k in ('r', 'ldr'):
+                if k in o:
+                    r.append(nm('b', o[k]))
+        if 'c' in o:
+            r.append(nm('c', o['c']))
+        if 'S' in o:
+            r.append(sorted(nm('s', x) for x in o['S']))
+        for k in ('pids', 'b', 'p'):
+            if k in o:
+                r.append(o[k])
+        out.append(r)
+    return core.sha(out)
+
+
+def one_per_class(behaviours):
+    seen, out = set(), []
+    for b in behaviours:
+        k = canon(b)
+        if k not in seen:
+            seen.add(k)
+            out.append(b)
+    return out
 
 
 def from_sim(sims, first_id):
@@ -119,7 +168,8 @@ def feats(b):
             snap_at, window, since_snapshot = i, [], []
         elif a == 'Persist' and snap_at is not None:
             persisted_window, snap_at = list(window), None
-        elif a == 'Restart':
+        elif a in ('Restart', 'Install'):
+            f.add(('recovery', a, 'snap' if persisted_window is not None else 'nosnap', tuple(since_snapshot[-3:])))
             if persisted_window is not None:
                 for tgt in persisted_window:
                     f.add(('late', tgt[0]))
@@ -244,7 +294,7 @@ def judge(rep, behaviours, trace):
     return res
 
 
-FAMILIES_QUICK = [('MC_MetadataFSM.cfg', 'Sim_MetadataFSM.cfg', 200), ('MC_MetadataFSM_groups.cfg', 'Sim_MetadataFSM_groups.cfg', 200)]
+FAMILIES_QUICK = [('MC_MetadataFSM.cfg', 'Sim_MetadataFSM.cfg', 130), ('MC_MetadataFSM_groups.cfg', 'Sim_MetadataFSM_groups.cfg', 130)]
 FAMILIES_THOROUGH = [('MC_MetadataFSM_thorough.cfg', 'Sim_MetadataFSM.cfg', 1200),
                      ('MC_MetadataFSM_groups_thorough.cfg', 'Sim_MetadataFSM_groups.cfg', 1200)]
 
@@ -290,14 +340,25 @@ def run(rep, tier, seed, replay):
             raise core.Inconclusive('model no longer reproduces the open finding %s: %s' % (prop, fres['out'][-1000:]))
     lap('finding configs')
     covered = total = 0
-    # MC_MetadataFSM_replay_late: directed family (one partition; leader changes, ISR shrink/expand; log <= 3) so that
-    # every Persist position after the Snapshot and every restart position behind it is executed
-    for cfg in (['MC_MetadataFSM_replay.cfg', 'MC_MetadataFSM_replay_late.cfg'] if quick else
-                ['MC_MetadataFSM_replay_streams.cfg', 'MC_MetadataFSM_replay_groups.cfg', 'MC_MetadataFSM_replay_late.cfg']):
+    # directed exhaustive families besides the full-alphabet one:
+    #   _late    one partition, leader changes / ISR shrink+expand incl. retried requests: every Persist position after
+    #            the Snapshot, every restart / install position behind it
+    #   _install create/delete stream, create/leave group: a live server installing a snapshot (also an EMPTY one)
+    fam = (['MC_MetadataFSM_replay.cfg'] if quick else ['MC_MetadataFSM_replay_streams.cfg', 'MC_MetadataFSM_replay_groups.cfg'])
+    executed_classes = 0
+    for cfg in fam + ['MC_MetadataFSM_replay_late.cfg', 'MC_MetadataFSM_replay_install.cfg']:
         g = graph.tlc_dump('MC_MetadataFSM.tla', cfg, workers=min(core.NCPU, 8), timeout=1500)
-        gb, cv, tt = from_graph(g, len(behaviours) + 1)
-        behaviours += gb
-        covered, total = covered + cv, total + tt
+        gb, cv, tt = from_graph(g, 0)
+        total += tt
+        if quick:
+            # quick: one behaviour per symmetry class (names of streams/brokers/consumers, partition counts)
+            gb = one_per_class(gb)
+            cv = len({i for b in gb for i in b['_edges']})     # transitions really executed
+        covered += cv
+        for b in gb:
+            b.pop('_edges', None)
+            b['id'] = len(behaviours) + 1
+            behaviours.append(b)
     lap('dot dump + cover')
     real = real_behaviours(behaviours, 2 if quick else 12, len(behaviours) + 1)
     for b in real:
@@ -315,7 +376,7 @@ def run(rep, tier, seed, replay):
     rep.cov['trace_lines_validated'] = tr['validated']
     rep.cov['evaluations'] = len(behaviours) + len(real)
     rep.cov['distinct_nontrivial'] = len({key(b) for b in behaviours if nontrivial(b)})
-    rep.cov['rule'] = ('behaviours = seeded TLC simulation of two scenario families of MC_MetadataFSM (stream operations; '
+    rep.cov['rule'] = ('[quick: one behaviour per symmetry class of the transition covers, simulated behaviours chosen by feature coverage from a 4x pool] behaviours = seeded TLC simulation of two scenario families of MC_MetadataFSM (stream operations; '
                        'consumer groups with stream deletion/re-creation), each continued to the end of a started '
                        'recovery, + transition cover of the state graph of MC_MetadataFSM_replay; non-trivial = contains a '
                        'restart and at least two different operations; distinct by hash of the step list')
